@@ -2927,6 +2927,38 @@ void tree_family()
     return c;
   };
   run_family<o_eq | o_ne>("tree<int>", f, observe, no_order{}, false);
+  // == looks at the values and the shape below the two nodes compared - not at where they hang: a copy of every family
+  // value attached one and two levels deep in a host tree compares with every (standalone) family value as the original
+  if (vf::begin_case("every family value as an attached subtree (depth 1 and 2) against every standalone value"))
+  {
+    std::vector<comps> obs;
+    for (tree const &t : f.v)
+      obs.push_back(observe(t));
+    for (std::size_t i = 0; i < f.v.size(); ++i)
+    {
+      tree host(1000);
+      host.push_back(tree(f.v[i]));
+      tree host2(1001);
+      host2.push_back(tree(host));
+      tree const &depth1 = host.front().get_unsafe().get();
+      tree const &depth2 = host2.front().get_unsafe().get().front().get_unsafe().get();
+      for (std::size_t j = 0; j < f.v.size(); ++j)
+      {
+        bool const same = obs[i] == obs[j];
+        VF_COUNT("tree/attached-subtree-comparisons");
+        for (tree const *a : {&depth1, &depth2})
+          if ((*a == f.v[j]) != same || (f.v[j] == *a) != same || (*a != f.v[j]) == same)
+          {
+            vf::violation("tree<int>/==/attached-subtree-against-standalone-tree", "mismatch",
+                          "value " + f.how[i] + " attached at depth " + (a == &depth1 ? "1" : "2") + " against " + f.how[j] + ": == gives " + ((*a == f.v[j]) ? "true" : "false"));
+            break;
+          }
+      }
+      if (!(depth1 == depth2))
+        vf::violation("tree<int>/==/attached-subtrees-at-different-depths", "mismatch", f.how[i]);
+    }
+    vf::add_evals(f.v.size() * f.v.size());
+  }
 }
 
 // ---- raw_vector: the same contents reached through different capacities and histories
